@@ -61,7 +61,8 @@ def assist(project, source, position, filename=None, debug=False):
     else:
         name = get_marked_name(source.tree)
         if name and hasattr(name, 'flow'):
-            names = name.flow.names_at(position)
+            # the cursor column counts characters, the analysis counts UTF-8 bytes as the parser does
+            names = name.flow.names_at((ln, len(line.encode('utf-8'))))
 
     return prefix, sorted(names)
 
